@@ -7,10 +7,11 @@ PROPERTY = 'C14'
 ASSUMPTIONS = [
     'H14a: the id counter is set directly to a symbolic start value c over [0, 2^32) (arbitrary valid state), then k streams are opened one after the other and kept open; the reactive device echoes whatever local id the OPEN carries',
     'H14b: 2-3 concurrent _open calls under the deterministic scheduler with statement-level preemption inside _open and the `+=` split into load / store (see C06 for the scheduler assumptions)',
+    'H14c: one or two _open calls concurrent with close()+connect() from another thread/task (preemption inside _open, close and connect); the open itself may fail, the OPEN packets the device sees are judged; streams of the previous connection are dead once the host sent its next CNXN',
     'a stream kept open across 2^32-1 later opens is outside any bound',
 ]
 BOUNDS = {
-    'quick': 'H14a: k = 1..3 sequential opens for ALL start values c in [0, 2^32) (the wrap is one symbolic branch); streams opened through streaming_shell/_open; sync+async. H14b: 2 concurrent opens, c in {0, 2^32-3, 2^32-2, 2^32-1, symbolic}, preemption bound 3',
+    'quick': 'H14a: k = 1..3 sequential opens for ALL start values c in [0, 2^32) (the wrap is one symbolic branch); streams opened through streaming_shell/_open; sync+async. H14b: 2 concurrent opens, c in {0, 2^32-3, 2^32-2, 2^32-1, symbolic}, preemption bound 2 (statement level) . H14c: open || reconnect, c in {5, 2^32-2, symbolic}, preemption bound 2 inside _open/close/connect, bound 1 everywhere; asyncio all orders',
     'thorough': 'k = 1..4; H14b: 3 concurrent opens (statement-level preemption bound 1; asyncio all orders)',
 }
 U32 = 2 ** 32 - 1
@@ -120,6 +121,14 @@ def shapes(tier, seed):
     for c in (0, 2 ** 32 - 2):
         out.append({'h': 'threads', 'ops': [['open', {'silent': True}], 'open'], 'preempt': 2, 'yields': False, 'counter': c, 'after_opens': 2, 'max_paths': 200000})
         out.append({'h': 'async', 'ops': [['open', {'silent': True}], 'open'], 'counter': c, 'after_opens': 2, 'max_paths': 200000})
+    # an open that races with a reconnect (close() then connect() from a watchdog thread): the open may fail, but whatever OPEN
+    # reaches the device carries an id in [1, 2^32-1] and collides with no stream of the same connection
+    mf = ['open', {'may_fail': True}]
+    for c in (5, 2 ** 32 - 2, 'sym'):
+        out.append({'h': 'threads', 'ops': [mf, 'reconnect'], 'preempt': 2, 'yields': ['AdbDevice._open', 'AdbDevice.close', 'AdbDevice.connect'], 'counter': c, 'max_paths': 200000})
+        out.append({'h': 'async', 'ops': [mf, 'reconnect'], 'counter': c, 'max_paths': 200000})
+    out.append({'h': 'threads', 'ops': [mf, 'reconnect'], 'preempt': 1, 'yields': True, 'counter': 5, 'max_paths': 200000})
+    out.append({'h': 'threads', 'ops': [mf, mf, 'reconnect'], 'preempt': 1, 'yields': ['AdbDevice._open', 'AdbDevice.close'], 'counter': 2 ** 32 - 2, 'max_paths': 200000})
     if not q:
         for c in (0, 2 ** 32 - 3, 2 ** 32 - 2):
             out.append({'h': 'threads', 'ops': ['open', 'open', 'open'], 'preempt': 1, 'yields': True, 'counter': c, 'max_paths': 400000})
